@@ -45,6 +45,9 @@ type EOp struct {
 func (o EOp) Token() string {
 	switch o.Kind {
 	case "ins":
+		if o.Re {
+			return "insx:" + o.It + ":" + H([]byte(o.Target)) + ":" + setField(o.Match) + ":" + H(o.Data)
+		}
 		return "ins:" + o.It + ":" + H([]byte(o.Target)) + ":" + H(o.Data)
 	case "rm":
 		p := "0"
@@ -90,6 +93,8 @@ func unSetField(f string) []string {
 func ParseToken(t string) (EOp, bool) {
 	f := strings.Split(t, ":")
 	switch {
+	case len(f) == 5 && f[0] == "insx":
+		return EOp{Kind: "ins", It: f[1], Target: string(UnH(f[2])), Re: true, Match: unSetField(f[3]), Data: UnH(f[4])}, true
 	case len(f) == 4 && f[0] == "rmx":
 		return EOp{Kind: "rm", Pad: f[1] == "1", Target: string(UnH(f[2])), Re: true, Match: unSetField(f[3])}, true
 	case len(f) == 4 && f[0] == "pex":
@@ -451,6 +456,10 @@ func PC03(args []string) string {
 		if r.Leftover {
 			return "FAIL output-file-written-on-error"
 		}
+		if len(ops) > 0 && allPad(ops) {
+			// remove_pad keeps every size: it cannot run out of space
+			return "FAIL remove_pad-only-sequence-does-not-save"
+		}
 		return "ok"
 	}
 	if r.Stage != "ok" {
@@ -495,13 +504,7 @@ func PC03(args []string) string {
 		return "FAIL file-sequence" + tag + " want " + clip(want) + " got " + clip(g)
 	}
 	// remove_pad only: every other file stays at its offset
-	padOnly := len(ops) > 0
-	for _, o := range ops {
-		if !(o.Kind == "rm" && o.Pad) {
-			padOnly = false
-		}
-	}
-	if padOnly {
+	if len(ops) > 0 && allPad(ops) {
 		a, b := FileOffsets(img), FileOffsets(r.Out)
 		for key, off := range b {
 			if old, ok := a[key]; ok && old != off {
@@ -510,6 +513,15 @@ func PC03(args []string) string {
 		}
 	}
 	return "ok"
+}
+
+func allPad(ops []EOp) bool {
+	for _, o := range ops {
+		if !(o.Kind == "rm" && o.Pad) {
+			return false
+		}
+	}
+	return true
 }
 
 func clip(s string) string {
@@ -571,11 +583,17 @@ func PGuid(args []string) string {
 	return "ok"
 }
 
+// OpFlat: the generator claims that image and operations satisfy the hypothesis of the proved
+// end-to-end theorem (C02_valid_after_edits_flat); the model decides it with the extracted
+// boolean flat_check, so a wrong claim is a mismatch.
+func OpFlat(args []string) string { return "flat" }
+
 func RegisterAll() {
 	uefiops.RegisterAll()
 	for k, v := range map[string]Op{
+		"flat": OpFlat,
 		"edit": OpEdit, "editvalid": OpEditValid, "find": OpFind, "findx": OpFindX, "p_find_full": PFindFull, "valid": OpValid, "guidstr": OpGuidStr, "guidparse": OpGuidParse,
-		"p_c02": PC02, "p_c03": PC03, "p_c03_ro": PC03RO, "p_guid": PGuid,
+		"p_c02": PC02, "p_c03": PC03, "p_c02_align": PC02Align, "p_c03_big": PC03Big, "p_c03_ro": PC03RO, "p_guid": PGuid,
 	} {
 		Register(k, v)
 	}
